@@ -382,6 +382,26 @@
 			shapes4.push(cs(nsp(a, 0)).c("c").f("I", "f", nsp(a, 0), None).m("(I)V", "m", nsp(a, 0), None, vec![ps(0, None, nsp(a, 0), Some("d"))]));
 		}
 		for m in Cx::new(&[1, 2, 3]).universe(&[("A", shapes4)]) { roundtrip_case::<4>(&mut t, &m); }
+		// names that are valid but unusual: every name of length 1..2 over {space, no-break space, ideographic space, em space, a, e-acute} in the second namespace of a
+		// class, a field, a method and a parameter, and as the source name of the parameter ("unicode names": a name made of white space is a name, an empty cell is none)
+		{
+			let alphabet = [' ', '\u{a0}', '\u{3000}', '\u{2003}', 'a', '\u{e9}'];
+			let mut names: Vec<String> = alphabet.iter().map(|c| c.to_string()).collect();
+			for a in alphabet { for b in alphabet { names.push(format!("{a}{b}")); } }
+			for n in &names {
+				for with_src in [true, false] {
+					let nm = |first: &str| vec![Some(first.to_string()), Some(n.clone())];
+					let mut c = MClass { names: nm("A"), comment: None, fields: BTreeMap::new(), methods: BTreeMap::new() };
+					c.fields.insert(("I".into(), "f".into()), MField { names: nm("f"), comment: None });
+					let mut me = MMethod { names: nm("m"), comment: None, params: BTreeMap::new() };
+					me.params.insert(0, MParam { names: vec![if with_src { Some(n.clone()) } else { None }, Some(n.clone())], comment: None });
+					c.methods.insert(("(I)V".into(), "m".into()), me);
+					let mut m = MSet { ns: vec![NSN[0].to_string(), NSN[1].to_string()], classes: BTreeMap::new() };
+					m.classes.insert("A".into(), c);
+					roundtrip_case::<2>(&mut t, &m);
+				}
+			}
+		}
 		// EXCLUSIONS (C03, reported): two kinds of sets that can only be built through the pub fields of the tree, never by
 		// reading text, do not survive write + read.  They are outside the model (the model has no comment on the set itself
 		// and its comments are what the text can spell); what the real code does is recorded, not asserted.
